@@ -5,6 +5,8 @@ import shutil
 import tempfile
 import warnings
 
+import re
+
 import numpy as np
 
 import builders_h5 as bh
@@ -25,6 +27,10 @@ THEOREMS = [
     "Verif.C05.keepMeta_spec",
     "Verif.C05.pixels_split",
     "Verif.C05.cropped_kymo_lines",
+    "Verif.C05.attr_table_nodup",
+    "Verif.C05.attr_lookup_spec",
+    "Verif.C05.attr_naming_rule",
+    "Verif.C05.trap_total_spec",
     "Verif.C01.cont_slice_samples",
     "Verif.C01.slice_samples",
 ]
@@ -103,6 +109,110 @@ class FakeDset:
         return np.arange(self._n, dtype=float)
 
 
+# ------------------------------------------------------------------ channels by attribute
+
+def attr_universe():
+    """every channel a File attribute can read: (path, kind) in a fixed order"""
+    out = []
+    for n in range(1, 5):
+        for a in "xyz":
+            out.append((f"Force HF/Force {n}{a}", "cont"))
+    for n in (1, 2):
+        out.append((f"Force HF/Corrected Force {n}x", "cont"))
+    for n in range(1, 5):
+        for a in "xyz":
+            out.append((f"Force LF/Force {n}{a}", "ts"))
+    for n in range(1, 5):
+        out.append((f"Force LF/Force {n}", "ts"))
+        out.append((f"Force LF/Trap {n}", "ts"))
+    for n in (1, 2):
+        out.append((f"Distance/Distance {n}", "ts"))
+    for c in ("Red", "Green", "Blue"):
+        out.append((f"Photon count/{c}", "cont"))
+    for c in ("Red", "Green", "Blue"):
+        out.append((f"Photon Time Tags/{c}", "tags"))
+    return out
+
+
+def attr_names():
+    """the public channel attributes of File, from the documented naming scheme (written out independently of the
+    Lean table): force<n><a>, corrected_force<n>x, downsampled_force<n>[<a>], distance<n>, <colour>_photon_count,
+    <colour>_photon_time_tags"""
+    names = [f"force{n}{a}" for n in range(1, 5) for a in "xyz"] + ["corrected_force1x", "corrected_force2x"]
+    names += [f"downsampled_force{n}{a}" for n in range(1, 5) for a in "xyz"] + [f"downsampled_force{n}" for n in range(1, 5)]
+    names += ["distance1", "distance2"] + [f"{c}_photon_count" for c in ("red", "green", "blue")]
+    names += [f"{c}_photon_time_tags" for c in ("red", "green", "blue")]
+    return names
+
+
+def attr_channel(idx, path, kind):
+    """content of universe channel number idx: length, start and spacing identify the channel; the x and y components
+    of one trap have the same length (the magnitude is rebuilt from them)"""
+    group, name = path.split("/")
+    if group == "Force LF" and name[-1] in "xyz":
+        n = 3 + int(name[-2])  # same length for the components of one trap
+    else:
+        n = 2 + idx % 7
+    start = 1000 + 37 * idx
+    values = [100 * (idx + 1) + j for j in range(n)]  # no two channels hold the same numbers
+    if kind == "cont":
+        return {"group": group, "name": name, "kind": "cont", "start": start, "dt": 2 + idx % 5, "n": n, "dtype": "f8", "values": values}
+    ts = [start + j * (3 + idx % 4) for j in range(n)]
+    return {"group": group, "name": name, "kind": kind, "ts": ts, "values": values}
+
+
+def attr_spec(case):
+    uni = attr_universe()
+    chans = [attr_channel(i, p, k) for i, (p, k) in enumerate(uni) if p in set(case["present"])]
+    return {"version": case["version"], "root_attrs": {"Bluelake version": "unknown", "Experiment": "e", "Description": "d", "GUID": "g", "Export time (ns)": 1},
+            "channels": chans, "calibrations": [], "markers": [], "notes": [], "kymos": []}
+
+
+def _attrs_impl(case):
+    import tempfile
+
+    lk = _lk()
+    spec = attr_spec(case)
+    exp = bh.expected_channels(spec)
+    shown = {p: show(e["kind"], e["ts"], e["data"]) for p, e in exp.items()}
+    out = []
+    with tempfile.TemporaryDirectory() as d:
+        fn = os.path.join(d, "a.h5")
+        bh.write_file(fn, spec)
+        f = lk.File(fn)
+        try:
+            for a in attr_names():
+                try:
+                    s = getattr(f, a)
+                except AttributeError:
+                    out.append("no-such-attribute")
+                    continue
+                except Exception as ex:
+                    out.append(errname(ex))
+                    continue
+                if len(s.data) == 0:
+                    out.append("empty")
+                    continue
+                ts, dat = np.asarray(s.timestamps), np.asarray(s.data, dtype=float)
+                hit = None
+                for p, e in exp.items():
+                    if len(e["ts"]) == len(ts) and list(e["ts"]) == [int(t) for t in ts]:
+                        if e["kind"] == "tags" or np.all(dat == np.asarray(e["data"], dtype=float)):
+                            hit = "path " + p
+                            break
+                        # the magnitude of this channel and another one of the same length?
+                        for q, e2 in exp.items():
+                            if q != p and len(e2["data"]) == len(dat) and np.allclose(dat, np.sqrt(np.asarray(e["data"], float) ** 2 + np.asarray(e2["data"], float) ** 2), rtol=1e-12, atol=0):
+                                hit = f"magnitude {p} | {q}"
+                                break
+                        if hit:
+                            break
+                out.append(hit or f"unknown-channel n={len(ts)} t0={int(ts[0])}")
+        finally:
+            f.h5.close()
+    return out
+
+
 # ------------------------------------------------------------------ file case: plan of ops
 
 
@@ -162,6 +272,9 @@ def ops(case):
         return [f"c05.dt {enc_float(1e9 / case['dt'])}"]
     if k == "omit":
         return [f"c05.omit {enc_listlist([[ord(c) for c in p] for p in case['pats']])} {enc_listlist([[ord(c) for c in p] for p in case['paths']])}"]
+    if k == "attrs":
+        pres = enc_listlist([[ord(c) for c in p] for p in case["present"]])
+        return [f"c05.attr {pres} {a}" for a in attr_names()]
     if k == "file":
         out = []
         exp = bh.expected_channels(case["spec"])
@@ -224,6 +337,8 @@ def impl(case):
             return [_omit_impl(case)]
         if k == "file":
             return _file_impl(case)
+        if k == "attrs":
+            return _attrs_impl(case)
     except Exception as ex:
         return [errname(ex)]
     raise ValueError(k)
@@ -423,6 +538,31 @@ def oracle(case, ia):
         return None if ia[0] == exp else f"omit: datasets present {ia[0]}, expected {exp} for patterns {case['pats']}"
     if k == "file":
         return _file_oracle(case, ia)
+    if k == "attrs":
+        # from the documented naming scheme: the attribute's own dataset, or nothing — never another channel
+        pres = set(case["present"])
+        for a, got in zip(attr_names(), ia):
+            m = re.fullmatch(r"(corrected_|downsampled_)?force(\d)([xyz]?)", a)
+            if m and m.group(1) == "downsampled_" and not m.group(3):
+                n = m.group(2)
+                cands = [f"Force LF/Force {n}", f"Force LF/Trap {n}"]
+                want = next(("path " + c for c in cands if c in pres), None)
+                if want is None:
+                    x, y = f"Force LF/Force {n}x", f"Force LF/Force {n}y"
+                    want = f"magnitude {x} | {y}" if x in pres and y in pres else "empty"
+            else:
+                if m:
+                    path = {None: "Force HF/Force ", "corrected_": "Force HF/Corrected Force ", "downsampled_": "Force LF/Force "}[m.group(1)] + m.group(2) + m.group(3)
+                elif a.startswith("distance"):
+                    path = "Distance/Distance " + a[-1]
+                elif a.endswith("_photon_count"):
+                    path = "Photon count/" + a.split("_")[0].capitalize()
+                else:
+                    path = "Photon Time Tags/" + a.split("_")[0].capitalize()
+                want = "path " + path if path in pres else "empty"
+            if got != want:
+                return f"channel-by-attribute: File.{a} gave {got!r}; the file holds {sorted(pres)!r}, so it should give {want!r}"
+        return None
     return None
 
 
@@ -524,6 +664,8 @@ def nontrivial(case, ia):
         return ia[0] not in ("[]",) and ("T" in ia[0] or "F" in ia[0] or any(ch.isdigit() for ch in ia[0]))
     if k == "dt":
         return True
+    if k == "attrs":
+        return len(case["present"]) > 0
     if k == "file":
         if case["mode"] == "crop":
             return any(a == "absent" for a in ia) or any(a.startswith(("cont", "ts", "tags")) for a in ia)
@@ -706,6 +848,27 @@ def cases(tier, rng):
         ps = sorted(set(ps))
         pats_ = [gen_pattern(sub, ps) for _ in range(sub.randint(1, 3))]
         yield {"stream": "random", "op": "omit", "pats": pats_, "paths": ps, "subseed": i}
+
+    # ---- channels by attribute: the whole table on a file with every channel, with none, with each one missing,
+    #      and on random subsets
+    uni = [p for p, _ in attr_universe()]
+    for v in (1, 2):
+        yield {"stream": "small-scope", "op": "attrs", "present": list(uni), "version": v}
+    yield {"stream": "small-scope", "op": "attrs", "present": [], "version": 2}
+    # trap totals: stored total / Trap n / rebuilt from components / a component missing
+    for n in (1, 2, 3, 4):
+        comp = [f"Force LF/Force {n}x", f"Force LF/Force {n}y", f"Force LF/Force {n}z"]
+        for extra in ([], [f"Force LF/Trap {n}"], [f"Force LF/Force {n}"], [f"Force LF/Force {n}", f"Force LF/Trap {n}"]):
+            yield {"stream": "small-scope", "op": "attrs", "present": comp + extra, "version": 2}
+        yield {"stream": "small-scope", "op": "attrs", "present": comp[:1] + comp[2:], "version": 2}
+    for i, p in enumerate(uni):
+        if not quick or i % 3 == 0:
+            yield {"stream": "small-scope", "op": "attrs", "present": [q for q in uni if q != p], "version": 2}
+    r = rng.fork("c05-attrs")
+    for i in range(25 if quick else 600):
+        sub = r.fork(i)
+        keep = sub.choice([0.2, 0.5, 0.8])
+        yield {"stream": "random", "op": "attrs", "present": [p for p in uni if sub.chance(keep)], "version": sub.choice([1, 2]), "subseed": i}
 
     # ---- generated files
     r = rng.fork("c05-files")
